@@ -66,6 +66,10 @@ def ds_op(ctx, struct, op, dim, args=None, attrs_kept=True, under=None):
     elif op == 'take_axis_pos':
         idx = [ctx.choice('p0', n), ctx.choice('p1', n)]
         present = True
+    elif op in ('take_axis_pos-clip', 'take_axis_pos-wrap'):
+        # positions outside 0..n-1 (negative ones included) under NumPy's clip / wrap modes
+        idx = [ctx.choice('p0', 2 * n + 2) - n - 1, ctx.choice('p1', 2 * n + 2) - n - 1]
+        present = True
     elif op in ('reindex_axis', 'reindex_axis-axisobj', 'reindex_axis-dspos', 'reindex_axis-realq'):
         qs = [ctx.label(kind if op != 'reindex_axis-realq' else 'f', 'q%d' % j) for j in range(args.get('k', 2))]
         present = True
@@ -124,6 +128,8 @@ def ds_op(ctx, struct, op, dim, args=None, attrs_kept=True, under=None):
             return ds.take_axis(idx, axis=dim)
         if op == 'take_axis_pos':
             return ds.take_axis(idx, axis=dim, indexing='position')
+        if op in ('take_axis_pos-clip', 'take_axis_pos-wrap'):
+            return ds.take_axis(idx, axis=dim, indexing='position', mode=op.split('-')[1])
         if op == 'sort_axis':
             return ds.sort_axis(axis=dim)
         if op in ('reindex_axis', 'reindex_axis-realq'):
@@ -166,6 +172,8 @@ def ds_op(ctx, struct, op, dim, args=None, attrs_kept=True, under=None):
             return v.take_axis(idx, axis=dim)
         if op == 'take_axis_pos':
             return v.take_axis(idx, axis=dim, indexing='position')
+        if op in ('take_axis_pos-clip', 'take_axis_pos-wrap'):
+            return v.take_axis(idx, axis=dim, indexing='position', mode=op.split('-')[1])
         if op == 'sort_axis':
             return v.sort_axis(axis=dim)
         if op in ('reindex_axis', 'reindex_axis-realq'):
@@ -329,7 +337,7 @@ def templates():
     structs = ['a_x', 'a_xy', 'a_x-b_yx', 'a_xy-b_y-c_0', 'a_y-b_xz', 'a_xyz-b_zy-c_x']
     ops = ['take-scalar', 'take-list', 'take-dict', 'take-axisname', 'loc-scalar', 'loc-list', 'sel-scalar', 'ix-scalar', 'ix-list', 'isel-scalar',
            'mean', 'std', 'var', 'median', 'sum', 'take_axis', 'take_axis_pos', 'sort_axis', 'reindex_axis', 'interp_axis',
-           'mean-pos', 'sum-pos', 'median-pos', 'mean-default', 'sum-default', 'reindex_axis-axisobj', 'take-keepdims', 'take-keepdims-axis', 'ix-keepdims', 'interp_axis-fills', 'reindex_axis-dspos', 'take_axis-dspos', 'sort_axis-dspos', 'interp_axis-dspos']
+           'mean-pos', 'sum-pos', 'median-pos', 'mean-default', 'sum-default', 'reindex_axis-axisobj', 'take-keepdims', 'take-keepdims-axis', 'ix-keepdims', 'interp_axis-fills', 'take_axis_pos-clip', 'take_axis_pos-wrap', 'reindex_axis-dspos', 'take_axis-dspos', 'sort_axis-dspos', 'interp_axis-dspos']
     for sname in structs:
         dims = []
         for _, ds_ in STRUCTS[sname]:
